@@ -1,0 +1,16 @@
+//go:build verif
+
+package variants
+
+import (
+	"io"
+
+	"github.com/virus-evolution/gofasta/pkg/fastaio"
+)
+
+// Thin exported wrappers around unexported functions, for the verification harness in /verif.
+// Only compiled with -tags verif.
+
+func VerifFindReference(msaIn io.Reader, referenceID string) (fastaio.EncodedFastaRecord, error) {
+	return findReference(msaIn, referenceID)
+}
